@@ -5,22 +5,32 @@ records everything under /verif/seeded/<seed name>/ (patch.diff, demo.sh, demo/,
 import json, os, re, shutil, subprocess, sys, time
 src, name, checks = sys.argv[1], sys.argv[2], sys.argv[3:]
 here = os.path.dirname(os.path.dirname(os.path.abspath(__file__)))
-out = subprocess.run([os.path.join(here, "lib", "seedrun.sh"), src] + checks, stdout=subprocess.PIPE, stderr=subprocess.STDOUT, text=True).stdout
-print(out)
+if os.environ.get("SEED_OUTPUT"):      # re-use the output of a seedrun.sh run that was already made
+    out = open(os.environ["SEED_OUTPUT"]).read()
+else:
+    out = subprocess.run([os.path.join(here, "lib", "seedrun.sh"), src] + checks, stdout=subprocess.PIPE, stderr=subprocess.STDOUT, text=True).stdout
+    print(out)
 m = re.search(r"== demo on clean tree\nexit=(\d+)", out); clean = int(m.group(1)) if m else None
 m = re.search(r"== demo on patched tree\nexit=(\d+)", out); patched = int(m.group(1)) if m else None
 tests_ok = "tests done" in out and "FAIL" not in out.split("== demo on patched tree")[0].split("== build+tests with patch")[1]
 dst = os.path.join(here, "seeded", name)
 os.makedirs(dst, exist_ok=True)
+same = os.path.realpath(src) == os.path.realpath(dst)
 for f in ("patch.diff", "demo.sh"):
-    shutil.copy(os.path.join(src, f), os.path.join(dst, f))
-if os.path.isdir(os.path.join(src, "demo")):
+    if not same:
+        shutil.copy(os.path.join(src, f), os.path.join(dst, f))
+if os.path.isdir(os.path.join(src, "demo")) and not same:
     shutil.copytree(os.path.join(src, "demo"), os.path.join(dst, "demo"), dirs_exist_ok=True)
 meta = {}
 try:
     meta = json.load(open(os.path.join(src, "meta.json")))
 except Exception as e:
     meta = {"note": "agent's meta.json unreadable: %s" % e}
+# a re-run after strengthening keeps the record of the first run (and SEED_HISTORY says what was strengthened)
+if "confirmed_by_us" in meta and "first_run" not in meta:
+    meta["first_run"] = meta["confirmed_by_us"]
+if os.environ.get("SEED_HISTORY"):
+    meta["history"] = os.environ["SEED_HISTORY"]
 results = {}
 tail = out.split("== checks on /repo with patch applied")[-1]
 for c in checks:
